@@ -246,7 +246,7 @@ func (g *tpGen) params() []tpVal {
 		p = append(p, tpVal{n: []int{0, 1, 2, 7, 8, 15, 16, 99, 255, 1000}[g.rng.Intn(10)]})
 	}
 	for i := 0; i < g.nStr; i++ {
-		p = append(p, tpVal{isStr: true, s: []string{"", "x", "hello", "a;b", "%d"}[g.rng.Intn(5)]})
+		p = append(p, tpVal{isStr: true, s: []string{"", "x", "hello", "a;b", "%d", "caf\u00e9", "\u4e16\u754c!", "\xff\x80"}[g.rng.Intn(8)]})
 	}
 	return p
 }
@@ -383,7 +383,7 @@ func tparmMain(args []string) error {
 		np := progs[p]
 		switch {
 		case np < 0:
-			for _, s := range []string{"", "x", "http://example.org/a?b=1", "id=7", "%d%p1", "title with spaces"} {
+			for _, s := range []string{"", "x", "http://example.org/a?b=1", "id=7", "%d%p1", "title with spaces", "na\u00efve \u4e16\u754c"} {
 				prm := []tpVal{{isStr: true, s: s}}
 				if np == -2 {
 					prm = append(prm, tpVal{isStr: true, s: []string{"", "id=k"}[len(s)%2]})
@@ -534,17 +534,18 @@ func tputsRun(tw *trace.Writer, rng *rand.Rand, grid int, full bool) error {
 		emit(s)
 		samples = append(samples, s)
 	}
-	// sleeping: observed coarsely, two cases
+	// sleeping: observed coarsely; with a pad character the delay is slept, without one never - whatever the flags
 	for _, pad := range []bool{true, false} {
-		t2 := &terminfo.Terminfo{}
-		if pad {
-			t2.PadChar = "\x00"
+		for _, s := range []string{"a$<200>b", "a$<150/>b", "a$<150*/>b", "a$<150/*>b", "a$<120*>b"} {
+			t2 := &terminfo.Terminfo{}
+			if pad {
+				t2.PadChar = "\x00"
+			}
+			var buf bytes.Buffer
+			t0 := time.Now()
+			t2.TPuts(&buf, s)
+			tw.Emit(trace.Ev{"ev": "Sleep", "s": trace.Str(s), "pad": pad, "ms": int(time.Since(t0) / time.Millisecond)})
 		}
-		var buf bytes.Buffer
-		s := "a$<200>b"
-		t0 := time.Now()
-		t2.TPuts(&buf, s)
-		tw.Emit(trace.Ev{"ev": "Sleep", "s": trace.Str(s), "pad": pad, "ms": int(time.Since(t0) / time.Millisecond)})
 	}
 	tw.Emit(trace.Ev{"ev": "Reset"})
 	// TGoto / TColor for every registered terminal
